@@ -19,6 +19,7 @@ ASSUMPTIONS = ['documented preconditions as listed per obligation (GLSL: bitfiel
 INC = ['glm/glm.hpp', 'glm/ext.hpp']
 U = Unit('c20', includes=INC)
 T = {}     # name -> (pre, bounds text, known ids, unwind)
+OPTIONAL = set()
 def add(name, ins, outs, body, pre=None, bounds='all argument values', known=(), unwind=16):
     U.add(name, ins, outs, body); T[name] = (pre, bounds, list(known), unwind)
 ITY = ['i8', 'u8', 'i16', 'u16', 'i32', 'u32', 'i64', 'u64']
@@ -49,23 +50,25 @@ for t in ITY:
     fl = lambda i, W=W: [i[1][0] >= 0, i[1][1] >= 0, i[1][0] + i[1][1] <= W, i[1][0] <= W, i[1][1] <= W]
     add('fill_' + t, [(c, 1), ('int', 2)], [(c, 2)], 'o[0] = glm::bitfieldFillOne(a[0], b[0], b[1]); o[1] = glm::bitfieldFillZero(a[0], b[0], b[1]);', fl, '0 <= first, 0 <= count, first + count <= %d' % W, known=['KF-C20-bitfieldFill-first-width'])
     # ext/scalar_integer + gtc/round
-    pos = (lambda i, W=W: [i[0][0] > 0, i[0][0] <= (1 << (W - 2))]) if sg else (lambda i, W=W: [i[0][0] != 0, z3.ULE(i[0][0], 1 << (W - 1))])
-    add('pow2_' + t, [(c, 1)], [(c, 2)], 'o[0] = glm::nextPowerOfTwo(a[0]); o[1] = glm::ceilPowerOfTwo(a[0]);', pos, 'x > 0 and the next power of two representable')
-    add('pow2f_' + t, [(c, 1)], [('bool', 1), (c, 2)], 'o[0] = glm::isPowerOfTwo(a[0]); o2[0] = glm::prevPowerOfTwo(a[0]); o2[1] = glm::floorPowerOfTwo(a[0]);', (lambda i: [i[0][0] > 0]) if sg else (lambda i: [i[0][0] != 0]), 'all x > 0')
-    add('pow2r_' + t, [(c, 1)], [(c, 1)], 'o[0] = glm::roundPowerOfTwo(a[0]);', (lambda i, W=W: [i[0][0] > 0, i[0][0] < 3 * (1 << (W - 3))]) if sg else (lambda i, W=W: [i[0][0] != 0, z3.ULT(i[0][0], 3 * (1 << (W - 2)))]),
-        'x > 0 and the nearest power of two representable (x < 1.5 * 2^%d)' % (W - 2 if sg else W - 1))
-    def mulpre(i, W=W, sg=sg):
+    # zero is inside the domain: the power-of-two family returns a conventional value there (it must still be evaluated without undefined behaviour)
+    pos = (lambda i, W=W: [i[0][0] >= 0, i[0][0] <= (1 << (W - 2))]) if sg else (lambda i, W=W: [z3.ULE(i[0][0], 1 << (W - 1))])
+    add('pow2_' + t, [(c, 1)], [(c, 2)], 'o[0] = glm::nextPowerOfTwo(a[0]); o[1] = glm::ceilPowerOfTwo(a[0]);', pos, 'x >= 0 and the next power of two representable')
+    add('pow2f_' + t, [(c, 1)], [('bool', 1), (c, 2)], 'o[0] = glm::isPowerOfTwo(a[0]); o2[0] = glm::prevPowerOfTwo(a[0]); o2[1] = glm::floorPowerOfTwo(a[0]);', (lambda i: [i[0][0] >= 0]) if sg else None, 'all x >= 0')
+    add('pow2r_' + t, [(c, 1)], [(c, 1)], 'o[0] = glm::roundPowerOfTwo(a[0]);', (lambda i, W=W: [i[0][0] >= 0, i[0][0] < 3 * (1 << (W - 3))]) if sg else (lambda i, W=W: [z3.ULT(i[0][0], 3 * (1 << (W - 2)))]),
+        'x >= 0 and the nearest power of two representable (x < 1.5 * 2^%d)' % (W - 2 if sg else W - 1))
+    def mulpre(i, W=W, sg=sg, part='cf'):
         x, m = i[0][0], i[0][1]; X = sx(x, W + 2) if sg else zx(x, W + 2); M = sx(m, W + 2) if sg else zx(m, W + 2)
-        MAX = (1 << (W - 1)) - 1 if sg else (1 << W) - 1
+        MAX = (1 << (W - 1)) - 1 if sg else (1 << W) - 1; MIN = -(1 << (W - 1)) if sg else 0
         # the mathematical results must be representable (not more): ceil = x + ((m - x mod m) mod m) <= MAX, floor = x - (x mod m) >= MIN, floor-mod in W+2 bits
-        if W > 32: return [m > 0 if sg else m != 0, X + M <= MAX] + ([X - M >= -(1 << (W - 1))] if sg else [])     # 64 bit: the 66-bit remainders of the exact domain are out of reach; x +- Multiple representable instead
-        MIN = -(1 << (W - 1)) if sg else 0
+        if W > 32 or (sg and W == 32 and part == 'f'): return [m > 0 if sg else m != 0] + ([X + M <= MAX] if 'c' in part else []) + ([X - M >= MIN] if sg and 'f' in part else [])     # 64 bit: the 66-bit remainders of the exact domain are out of reach; x +- Multiple representable instead
         r = z3.SRem(X, M) if sg else z3.URem(X, M); fm = z3.If(r < 0, r + M, r) if sg else r
         up = z3.If(fm == 0, fm, M - fm)
-        pos = [m > 0, X + up <= MAX, X - fm >= MIN] if sg else [m != 0, z3.ULE(X + up, z3.BitVecVal(MAX, W + 2))]
-        return pos
-    add('mult_' + t, [(c, 2)], [('bool', 1), (c, 5)], 'o[0] = glm::isMultiple(a[0], a[1]); o2[0] = glm::nextMultiple(a[0], a[1]); o2[1] = glm::prevMultiple(a[0], a[1]); o2[2] = glm::ceilMultiple(a[0], a[1]); o2[3] = glm::floorMultiple(a[0], a[1]); o2[4] = glm::roundMultiple(a[0], a[1]);',
-        mulpre, 'Multiple > 0, the next / previous multiple representable (64-bit types: x +- Multiple representable)')
+        return [m > 0 if sg else m != 0] + ([(X + up <= MAX) if sg else z3.ULE(X + up, z3.BitVecVal(MAX, W + 2))] if 'c' in part else []) + ([X - fm >= MIN] if sg and 'f' in part else [])
+    # one wrapper per direction: the path conditions of the six functions do not pile up in one query, and each direction carries exactly its own representability condition
+    add('multc_' + t, [(c, 2)], [('bool', 1), (c, 2)], 'o[0] = glm::isMultiple(a[0], a[1]); o2[0] = glm::nextMultiple(a[0], a[1]); o2[1] = glm::ceilMultiple(a[0], a[1]);',
+        lambda i, W=W, sg=sg: mulpre(i, W, sg, 'c'), 'Multiple > 0 and the next multiple representable (64-bit types: x + Multiple representable)')
+    add('multf_' + t, [(c, 2)], [(c, 3)], 'o[0] = glm::prevMultiple(a[0], a[1]); o[1] = glm::floorMultiple(a[0], a[1]); o[2] = glm::roundMultiple(a[0], a[1]);',
+        lambda i, W=W, sg=sg: mulpre(i, W, sg, 'f'), 'Multiple > 0 and the previous multiple representable (int32 and 64-bit types: x - Multiple representable; the exact int32 domain needs srem(x+1, m) related to srem(x, m) over 34 bits, which no back end decides)')
     add('findNSB_' + t, [(c, 1), ('int', 1)], [('int', 1)], 'o[0] = glm::findNSB(a[0], b[0]);', lambda i, W=W: [i[1][0] >= 1, i[1][0] <= W], '1 <= n <= %d' % W, unwind=9)
 add('carry', [('uint32_t', 2)], [('uint32_t', 6)], 'glm::uint c, b, m, l; o[0] = glm::uaddCarry(a[0], a[1], c); o[1] = c; o[2] = glm::usubBorrow(a[0], a[1], b); o[3] = b; glm::umulExtended(a[0], a[1], m, l); o[4] = m; o[5] = l;')
 add('imulext', [('int32_t', 2)], [('int32_t', 2)], 'int m, l; glm::imulExtended(a[0], a[1], m, l); o[0] = m; o[1] = l;')
@@ -116,6 +119,34 @@ add('index_m', [('float', 12), ('int', 2)], [('float', 1)], 'glm::mat<4,3,float>
 add('index_q', [('float', 4), ('int', 1)], [('float', 1)], 'glm::quat q = ldq<float>(a); o[0] = q[b[0]];', lambda i: [i[1][0] >= 0, i[1][0] < 4], '0 <= i < 4')
 add('index_set', [('int32_t', 4), ('int', 1)], [('int32_t', 4)], 'glm::ivec4 v = ldv<4,int32_t>(a); v[b[0]] = 7; stv(o, v);', lambda i: [i[1][0] >= 0, i[1][0] < 4], '0 <= i < 4')
 
+# quaternion component access in both memory orders (GLM_FORCE_QUAT_DATA_WXYZ has its own operator[] / value_ptr / relational code paths)
+UQ = {}
+for lay, defs in (('xyzw', []), ('wxyz', ['GLM_FORCE_QUAT_DATA_WXYZ'])):
+    uq = Unit('c20_q' + lay, includes=INC + ['glm/gtc/type_ptr.hpp'], defines=defs); TQ = {}
+    def addq(name, ins, outs, body, pre=None, bounds='all argument values', uq=uq, TQ=TQ): uq.add(name, ins, outs, body); TQ[name] = (pre, bounds, [], 16)
+    for s_, Tf in (('f', 'float'), ('d', 'double')):
+        idx = lambda i: [i[1][0] >= 0, i[1][0] < 4]
+        addq('qidx_c_' + s_, [(Tf, 4), ('int', 1)], [(Tf, 1)], 'glm::qua<%s> const q = ldq<%s>(a); o[0] = q[b[0]];' % (Tf, Tf), idx, '0 <= i < 4 (const access)')
+        addq('qidx_m_' + s_, [(Tf, 4), ('int', 1)], [(Tf, 4)], 'glm::qua<%s> q = ldq<%s>(a); q[b[0]] = q[3 - b[0]]; stq(o, q);' % (Tf, Tf), idx, '0 <= i < 4 (read and write through the non-const operator[])')
+        addq('qrel_' + s_, [(Tf, 4), (Tf, 4), (Tf, 1)], [('bool', 4)] * 6, 'glm::qua<%s> const p = ldq<%s>(a), q = ldq<%s>(b); stv(o, glm::equal(p, q)); stv(o2, glm::notEqual(p, q)); stv(o3, glm::lessThan(p, q)); stv(o4, glm::greaterThanEqual(p, q)); stv(o5, glm::equal(p, q, c[0])); stv(o6, glm::isnan(p));' % (Tf, Tf, Tf))
+        addq('qptr_' + s_, [(Tf, 4)], [(Tf, 4), (Tf, 4)], 'glm::qua<%s> const q = ldq<%s>(a); %s const* p = glm::value_ptr(q); for (int k = 0; k < 4; ++k) o[k] = p[k]; glm::qua<%s> r = glm::make_quat(p); stq(o2, r);' % (Tf, Tf, Tf, Tf))
+    UQ[lay] = (uq, TQ)
+def job_quat(lay):
+    uq, TQ = UQ[lay]
+    def run(S):
+        for n in sorted(TQ):
+            pre, btxt, known, unw = TQ[n]
+            n_inc = len(S.inconclusive); n_rec = len(S.records)
+            res = S.check_fn(uq, n, None, pre, ubsan=True, unwind=unw, bounds=btxt + '; UBSan-trap IR' + ('' if lay == 'xyzw' else ', GLM_FORCE_QUAT_DATA_WXYZ'), timeout=S.cap(60, 240), validate=0, assume_asserts=True, name='c20.q%s.%s' % (lay, n))
+            if res is None:
+                r = S.records[-1] if len(S.records) > n_rec else None
+                if r is not None and r.get('status') == 'not-encoded' and 'oob' in str(r.get('note', '')):      # access at a concrete out-of-bounds offset: confirmed natively under AddressSanitizer
+                    del S.inconclusive[n_inc:]; r['mandatory'] = False
+                    if not hasattr(S, 'oob_pending'): S.oob_pending = []
+                    S.oob_pending.append((uq, n, r))
+        _resolve_oob(S)
+    return run
+
 def _roundeven_region(res, i):
     out = []
     for x in res.ins[0]:
@@ -148,14 +179,14 @@ def _simd_unit(isa, flag):
     return u, TS
 SIMD = {isa: _simd_unit(isa, fl) for isa, fl in (('sse2', '-msse2'), ('avx2', '-mavx2'))}
 def simd_isas(tier): return ['sse2'] if tier == 'quick' else ['sse2', 'avx2']
-def units(tier): return [(U, '-O1', True)] + [(SIMD[i][0], '-O1', True) for i in simd_isas(tier)] + [(UM, '-O0', False)] + [(u, '-O1', True) for (g, t, ql, u, cases) in _sweep()] + [(_X.UT, '-O1', True), (_X.UX, '-O1', True)]
+def units(tier): return [(U, '-O1', True)] + [(SIMD[i][0], '-O1', True) for i in simd_isas(tier)] + [(UM, '-O0', False)] + [(u, '-O1', True) for (g, t, ql, u, cases) in _sweep()] + [(_X.UT, '-O1', True), (_X.UX, '-O1', True)] + [(UQ[l][0], '-O1', True) for l in UQ]
 NATIVE = False
 
 def job(names):
     def run(S):
         for n in names:
             pre, btxt, known, unw = T[n]
-            S.check_fn(U, n, None, pre, ubsan=True, unwind=unw, known=known, bounds=btxt + '; UBSan-trap IR', timeout=S.cap(240, 480) if n.startswith('mult_') else S.cap(60, 240), validate=0, solver='portfolio' if n.startswith(('mult_', 'ivecops', 'gtxint')) else 'z3')
+            S.check_fn(U, n, None, pre, ubsan=True, unwind=unw, known=known, bounds=btxt + '; UBSan-trap IR', timeout=S.cap(240, 480) if n.startswith('mult') else S.cap(60, 240), validate=0, solver='portfolio' if n.startswith(('mult', 'ivecops', 'gtxint')) else 'z3', split_side=n.startswith('mult'), mandatory=n not in OPTIONAL)
     return run
 # ---- memory-safety slice: the memcpy / union / pointer based functions in UNOPTIMISED IR (-O0 keeps every memcpy with its byte count; at -O1 clang folds an
 # out-of-bounds copy between two stack objects away).  An out-of-bounds or uninitialised access seen by the executor is confirmed natively under AddressSanitizer.
@@ -232,9 +263,9 @@ def jobs(tier):
     for (g, t, ql, u, cases) in _sweep():
         for k in range(3):
             if cases[k::3]: sw.append(('sweep_%s_%s_%s_%d' % (g, t, ql, k), job_sweep(u, cases[k::3])))
-    return jobs_pure(tier) + jobs_ext(tier) + sw + [('mem_%d' % k, job_mem(mem[k::4])) for k in range(4)] + [('simd_%s_%d' % (isa, k), job_simd(isa, sorted(SIMD[isa][1])[k::3])) for isa in simd_isas(tier) for k in range(3)]
+    return jobs_pure(tier) + jobs_ext(tier) + [('quat_' + l, job_quat(l)) for l in UQ] + sw + [('mem_%d' % k, job_mem(mem[k::4])) for k in range(4)] + [('simd_%s_%d' % (isa, k), job_simd(isa, sorted(SIMD[isa][1])[k::3])) for isa in simd_isas(tier) for k in range(3)]
 def jobs_pure(tier):
     names = sorted(U.fns)
-    if tier == 'quick': names = [n for n in names if not re.search(r'_(i8|u16|i16)$', n)]
+    if tier == 'quick': names = [n for n in names if not re.search(r'_(i8|u16|i16)$', n) and n not in OPTIONAL]
     k = 14; n = (len(names) + k - 1) // k
     return [('g%02d' % j, job(names[j * n:(j + 1) * n])) for j in range(k) if names[j * n:(j + 1) * n]]
